@@ -204,6 +204,10 @@ func checkC07(c *Ctx) {
 				continue
 			}
 			res, _ := o.Ret[0].(*SliceV)
+			if !ex.freshSlice(o, res) {
+				c.Bad(r.rule, "constructor "+r.name+" returns a fresh message", p.Pos(r.fn.Pos()), "the returned message shares storage that outlives the call (a package-level template or buffer): a message built earlier changes when the next one is built")
+				okAll = false
+			}
 			elems, ok := ex.sliceElems(o.St, res)
 			if !ok {
 				c.Unk(r.rule, "constructor "+r.name+" result", p.Pos(r.fn.Pos()), "result is not a byte slice of known length on "+key)
